@@ -268,6 +268,74 @@ class Boom(Exception):
     pass
 
 
+class Unprintable(Exception):
+    """an exception whose text cannot be produced (a remote error wrapper with a broken __str__)"""
+
+    def __str__(self):
+        raise RuntimeError("this exception has no text")
+
+
+class Unreprable(Unprintable):
+    def __repr__(self):
+        raise RuntimeError("nor a repr")
+
+
+EXC_CLASSES = ["unprintable", "unreprable", "ValueError", "KeyError", "OSError", "TimeoutError", "ConnectionResetError",
+               "StopAsyncIteration", "ExceptionGroup", "ExceptionGroup-cancel-scope", "ExceptionGroup-unprintable",
+               "BaseExceptionGroup", "str-subclass-args", "bytes-args"]
+
+
+def make_exception(kind):
+    """what the body of the context may raise: every class the wrappers look at, format or filter"""
+    if kind == "unprintable":
+        return Unprintable("x")
+    if kind == "unreprable":
+        return Unreprable("x")
+    if kind == "OSError":
+        return OSError(5, "I/O error %s {0}")
+    if kind == "ExceptionGroup":
+        return ExceptionGroup("several things", [ValueError("one"), KeyError("two")])
+    if kind == "ExceptionGroup-cancel-scope":
+        return ExceptionGroup("g", [RuntimeError("Attempted to exit a cancel scope that isn't the current one")])
+    if kind == "ExceptionGroup-unprintable":
+        return ExceptionGroup("g", [Unprintable("x")])
+    if kind == "BaseExceptionGroup":
+        return BaseExceptionGroup("g", [Unprintable("x"), ValueError("y")])
+    if kind == "str-subclass-args":
+        class S(str):
+            def __str__(self):
+                raise RuntimeError("no text")
+        return ValueError(S("x"))
+    if kind == "bytes-args":
+        return ValueError(b"\xff\xfe", 0, None)
+    return {"ValueError": ValueError, "KeyError": KeyError, "TimeoutError": TimeoutError,
+            "ConnectionResetError": ConnectionResetError, "StopAsyncIteration": StopAsyncIteration}[kind]("body failed: %s %d {0}")
+
+
+@contextlib.contextmanager
+def host_logging(case):
+    """`logging: "debug"`: the host has logging at DEBUG with a handler that FORMATS each record (see config_h)"""
+    import logging
+
+    if case.get("logging") != "debug":
+        yield
+        return
+    from .config_h import FormattingHandler
+    root = logging.getLogger()
+    saved = (root.level, logging.root.manager.disable)
+    h = FormattingHandler()
+    h.setFormatter(logging.Formatter("%(asctime)s %(name)s %(levelname)s %(message)s"))
+    logging.disable(logging.NOTSET)
+    root.addHandler(h)
+    root.setLevel(logging.DEBUG)
+    try:
+        yield
+    finally:
+        root.removeHandler(h)
+        root.setLevel(saved[0])
+        logging.disable(saved[1])
+
+
 CHILD_KEYS = ("k", "code", "junk", "delay", "linger", "close_after", "term_delay", "stderr", "chatty", "falsy_result",
               "on_term", "self_exit", "stderr_flood")
 
@@ -453,6 +521,8 @@ async def _scenario(case, tmp, obs):
             await anyio.sleep_forever()
         clock["exit"] = time.monotonic()
         if path == "exception":
+            if case.get("exc_class"):
+                raise make_exception(case["exc_class"])
             if case.get("exc_text") == "noargs":
                 raise Boom()
             raise Boom(EXC_TEXTS[case.get("exc_text", "plain")])
@@ -550,7 +620,7 @@ async def _scenario(case, tmp, obs):
                 await anyio.sleep_forever()
             clock["exit"] = time.monotonic()
             if path == "exception":
-                raise Boom("exception in body")
+                raise make_exception(case["exc_class"]) if case.get("exc_class") else Boom("exception in body")
 
     @contextlib.asynccontextmanager
     async def _noctx():
@@ -684,17 +754,75 @@ def run_case(case):
     try:
         with open(os.path.join(tmp, "child.py"), "w") as f:
             f.write(CHILD)
-        if case.get("bad") is not None:
-            _run_bad(case, tmp, obs)
+        if case.get("servers") is not None:
+            try:
+                with host_logging(case):
+                    _run_host_runner(case, tmp, obs)
+            except BaseException as ex:  # noqa: BLE001
+                obs["harness_error"] = f"{type(ex).__name__}: {ex}"[:300]
+        elif case.get("bad") is not None:
+            with host_logging(case):
+                _run_bad(case, tmp, obs)
         else:
             try:
-                anyio.run(_scenario, case, tmp, obs)
+                with host_logging(case):
+                    anyio.run(_scenario, case, tmp, obs)
             except BaseException as ex:  # noqa: BLE001
                 obs["harness_error"] = f"{type(ex).__name__}: {ex}"[:300]
     finally:
         kill_tagged(tmp)
         shutil.rmtree(tmp, ignore_errors=True)
     return obs
+
+
+def _run_host_runner(case, tmp, obs):
+    """The stdio client contexts as the library's own multi-server host enters and leaves them:
+    `mcp_client.host.server_manager.run_command` (enter every server, initialize, run the command function, leave every
+    context).  `servers` are child specs; after run_command has returned no child may be left and no descriptor added."""
+    from chuk_mcp.mcp_client.host import server_manager as SM
+    from chuk_mcp.protocol.messages.send_message import send_message
+
+    script = os.path.join(tmp, "child.py")
+    servers = {}
+    for i, sp in enumerate(case["servers"]):
+        d = {"kind": sp["behaviour"]}
+        d.update({k: sp[k] for k in CHILD_KEYS if k in sp})
+        servers[f"s{i}"] = {"command": sys.executable, "args": ["-S", "-E", script, json.dumps(d)]}
+    cfg = os.path.join(tmp, "config.json")
+    with open(cfg, "w") as f:
+        json.dump({"mcpServers": servers}, f)
+    clock = {}
+    reqs = obs["requests"]
+
+    async def command(server_streams):
+        obs["entered"] = True
+        for i, (r, w) in enumerate(server_streams):
+            rec = {"client": i, "x": f"{case.get('nonce', 'n')}-s{i}", "outcome": None}
+            reqs.append(rec)
+            try:
+                rec["payload"] = await send_message(r, w, "echo", {"x": rec["x"]}, timeout=ANSWER_TIMEOUT_S)
+                rec["outcome"] = "returned"
+            except TimeoutError:
+                rec["outcome"] = "timeout"
+            except Exception as ex:  # noqa: BLE001
+                rec["outcome"], rec["exc"] = "error", type(ex).__name__
+        clock["exit"] = time.monotonic()
+        if case["path"] == "exception":
+            raise Boom("command failed")
+
+    me = os.getpid()
+    fd0 = nfds()
+    _r, z0 = scan(tmp, me)
+    import io
+    with contextlib.redirect_stdout(io.StringIO()):
+        SM.run_command(command, cfg, list(servers))
+    t_end = time.monotonic()
+    if "exit" in clock:
+        obs["duration_ms"] = int((t_end - clock["exit"]) * 1000)
+    running, z = scan(tmp, me)
+    obs["state"] = "running" if running else ("zombie" if [p for p in z if p not in z0] else "gone")
+    obs["fd_delta"] = nfds() - fd0
+    obs["state_at_return"], obs["fd_delta_at_return"] = obs["state"], obs["fd_delta"]
 
 
 def _run_bad(case, tmp, obs):
@@ -721,27 +849,37 @@ def _run_bad(case, tmp, obs):
     async def main():
         params = StdioParameters(command=cmd, args=["x"])
         fd0 = nfds()
-        try:
-            with anyio.fail_after(SCENARIO_TIMEOUT_S):
-                if api == "StdioTransport":
-                    from chuk_mcp.transports.stdio.transport import StdioTransport
-                    async with StdioTransport(params):
-                        obs["entered"] = True
-                elif api == "StdioClient":
-                    from chuk_mcp.transports.stdio.stdio_client import StdioClient
-                    async with StdioClient(params):
-                        obs["entered"] = True
+        obj = None
+        obs["attempts"] = []
+        # `attempts` > 1: the SAME object is entered again after the failed start (a host that retries)
+        for _ in range(case.get("attempts", 1)):
+            entered_now = False
+            try:
+                with anyio.fail_after(SCENARIO_TIMEOUT_S):
+                    if api == "StdioTransport":
+                        from chuk_mcp.transports.stdio.transport import StdioTransport
+                        obj = obj or StdioTransport(params)
+                        async with obj:
+                            entered_now = obs["entered"] = True
+                    elif api == "StdioClient":
+                        from chuk_mcp.transports.stdio.stdio_client import StdioClient
+                        obj = obj or StdioClient(params)
+                        async with obj:
+                            entered_now = obs["entered"] = True
+                    else:
+                        from chuk_mcp.transports.stdio.stdio_client import stdio_client
+                        async with stdio_client(params):
+                            entered_now = obs["entered"] = True
+                obs["attempts"].append("entered")
+            except TimeoutError:
+                obs["hang"] = True
+                obs["attempts"].append("hang")
+            except BaseException as ex:  # noqa: BLE001
+                obs["attempts"].append("entered-then-" + type(ex).__name__ if entered_now else "raised")
+                if not entered_now:
+                    obs["enter_exc"] = type(ex).__name__
                 else:
-                    from chuk_mcp.transports.stdio.stdio_client import stdio_client
-                    async with stdio_client(params):
-                        obs["entered"] = True
-        except TimeoutError:
-            obs["hang"] = True
-        except BaseException as ex:  # noqa: BLE001
-            if not obs["entered"]:
-                obs["enter_exc"] = type(ex).__name__
-            else:
-                obs["exit_exc"] = type(ex).__name__
+                    obs["exit_exc"] = type(ex).__name__
         await anyio.sleep(0.05)
         running, _z = scan(tmp, os.getpid())
         obs["state"] = "running" if running else "gone"
@@ -763,6 +901,7 @@ def _worker_init(repo):
     with contextlib.suppress(Exception):
         dn = os.open(os.devnull, os.O_WRONLY)
         os.dup2(dn, 2)                         # children inherit stderr; keep their tracebacks off the terminal
+        os.dup2(dn, 1)                         # results travel through the pool's own pipes; run_command clears the screen
         os.close(dn)
 
 
